@@ -22,7 +22,7 @@ class C02(Property):
                          "editor_block_roundtrip", "difficulty_block_roundtrip", "general_block_roundtrip", "events_block_roundtrip",
                          "laws_satisfiable", "records_roundtrip", "circle_rt", "spinner_rt", "hold_rt", "samples_bank_info_rt", "samples_rt",
                          "parseBits_printBits_f64", "parseBits_printBits_f32", "parseBits_printBits", "printBits_clean", "printBits_ne_nil",
-                         "parseDecimal_renderDecimal", "roundRat_of_inInterval", "shortestDigits_inInterval",
+                         "parseDecimal_renderDecimal", "roundRat_of_inInterval", "roundRat_spec", "roundRat_eq_iff", "shortestDigits_inInterval",
                          "codecLaws_float", "codecLaws_float32", "editor_block_roundtrip_ieee", "difficulty_block_roundtrip_ieee",
                          "events_block_roundtrip_ieee", "printBits_intBits_f64", "printBits_of_int_value", "intPrintLaw_float",
                          "general_block_roundtrip_ieee"]
@@ -31,8 +31,8 @@ class C02(Property):
             "law-dependent: proved for every number codec satisfying CodecLaws (parse(print x) = x on the representable values; printed numbers are non-empty and made of "
             "number characters only) and, for AudioLeadIn, IntPrintLaw (integral values print like integers). The laws are shown satisfiable by the toy codec of Lemmas/ToyCodec.lean "
             "(laws_satisfiable) AND are now theorems for the model's real IEEE codec at the bit level (Props/C02Codec.lean, Lemmas/FloatCodecLaws*.lean): parseBits (printBits b) = some b "
-            "for every non-NaN binary32 / binary64 bit pattern (parseBits_printBits_f32 / _f64: signs, zeros, infinities, subnormals, normals; via roundRat_of_inInterval — correct rounding, "
-            "ties to even — and shortestDigits_inInterval), printBits_clean, printBits_ne_nil. For the driver's Float / Float32 instances this gives CodecLaws on the non-NaN values "
+            "for every non-NaN binary32 / binary64 bit pattern (parseBits_printBits_f32 / _f64: signs, zeros, infinities, subnormals, normals; via roundRat_of_inInterval / roundRat_spec — correct rounding, "
+            "ties to even, underflow to 0, overflow to infinity: roundRat f x = b iff x lies in the rounding interval of b — and shortestDigits_inInterval), printBits_clean, printBits_ne_nil. For the driver's Float / Float32 instances this gives CodecLaws on the non-NaN values "
             "(codecLaws_float / codecLaws_float32, and editor_ / difficulty_ / events_block_roundtrip_ieee) from ONE hypothesis each, FloatBitsLaw / Float32BitsLaw "
             "(ofBits (toBits x) = x and toBits x is not a NaN pattern, for non-NaN x): Lean's Float is opaque to the kernel, so this statement about the runtime's bit casts cannot be proved; "
             "it is exercised by the codec differential. IntPrintLaw (AudioLeadIn) is proved at the bit level too: every integer z with |z| < 2^53 prints as intDigits z "
